@@ -7,6 +7,24 @@ fn main() {
     let out = std::path::PathBuf::from(std::env::args().nth(1).unwrap());
     std::fs::create_dir_all(&out).unwrap();
     let mut probes = Vec::new();
+    // sanity of the stubs themselves: every field type must really have the Send / Sync flags the
+    // expectations are computed from (a disagreement is a harness error, never a verdict)
+    let mut seen = std::collections::BTreeSet::new();
+    for d in thr_defs() {
+        for (adds, _) in &d.variants {
+            for fld in adds {
+                if !seen.insert(fld.ty) {
+                    continue;
+                }
+                for (tr, has) in [("Send", fld.send), ("Sync", fld.sync)] {
+                    let file = format!("stub_{}_{}.rs", seen.len(), tr);
+                    let body = format!("extern crate thrtypes;\nfn needs<T: {}>() {{}}\npub fn probe() {{ needs::<{}>(); }}\n", tr, fld.ty);
+                    std::fs::write(out.join(&file), body).unwrap();
+                    probes.push(serde_json::json!({"file": file, "definition": "stub", "stub_type": fld.ty, "trait": tr, "expect": if has { "stub-accept" } else { "stub-reject" }}));
+                }
+            }
+        }
+    }
     for d in thr_defs() {
         let (code, expectations) = generate_thr_def(&d);
         let head = format!("#![allow(dead_code, unused_imports, unused_variables, clippy::all)]\n#[macro_use]\nextern crate static_assertions;\nextern crate truc_runtime;\nextern crate thrtypes;\npub mod m {{\n{}\n}}\nfn needs_send<T: Send>() {{}}\nfn needs_sync<T: Sync>() {{}}\n", code);
